@@ -61,6 +61,10 @@ def cmp_key_of_closure(c, two_elements):
 def closure_arg(prog, body, t, idx):
     """closure body passed as argument idx of call t"""
     op = t["args"][idx]
+    if op[0] == "k" and isinstance(op[1], dict) and "fn" in op[1]:
+        # a named fn passed instead of a closure (`binary_search_by_key(id, sorted_entry_id)`)
+        f = op[1]["fn"]
+        return prog.bodies.get((f.get("resolved") or {}).get("path") or f["callee"])
     l = op_local(op)
     for d in body.defs().get(l, []):
         if d[0] == "stmt" and d[4][0] == "agg" and d[4][1][0] == "closure":
